@@ -2,14 +2,14 @@ package rules
 
 import (
 	"fmt"
-	"os"
-	"runtime/debug"
-	"sync"
 	"go/constant"
 	"go/token"
 	"go/types"
+	"os"
+	"runtime/debug"
 	"sort"
 	"strings"
+	"sync"
 
 	"golang.org/x/tools/go/ssa"
 
@@ -29,6 +29,8 @@ func init() {
 	mk("R-ERRSTUCK", []string{"C01"}, "a non-EOF error return consumes at least one byte (calling Next again cannot repeat the same error forever)")
 	mk("R-TILE", []string{"C02"}, "every non-error return yields the Shift() that is the last cursor operation; Skip only drops in-tag whitespace")
 	mk("R-SPELL", []string{"C06", "C07", "C09", "C10", "C11"}, "fixed-spelling token types are returned only after consuming exactly their spelling")
+	mk("R-INPLACE", []string{"C02"}, "input bytes are rewritten in place only at the audited sites (HTML name case folding, XML attribute whitespace)")
+	mk("R-RESTORE", []string{"C02", "C06", "C07"}, "a scanner that reports failure without an error leaves the cursor where it started")
 	mk("R-TAGSTATE", []string{"C09", "C11"}, "attribute tokens only between a start tag and its closing token (inTag protocol)")
 }
 
@@ -38,7 +40,7 @@ type lexSpec struct {
 	errPath         string
 	allowSkip       bool
 	skipWS          ByteSet
-	tiles           bool              // css/js: tokens tile the input, no Skip at all
+	tiles           bool                               // css/js: tokens tile the input, no Skip at all
 	spell           func(r *core.Run) map[int64]string // fixed-spelling token types
 	inTagPath       string
 	extraEntries    []string // further entry points analysed for R-CURSOR/R-PROGRESS only
@@ -126,8 +128,8 @@ func jsonSpell(r *core.Run) map[int64]string {
 // ---------------------------------------------------------------------------
 
 type engResult struct {
-	obs   []*core.Obligation
-	notes []string
+	obs    []*core.Obligation
+	notes  []string
 	assume []string
 	counts map[string]int
 }
@@ -146,7 +148,7 @@ func emitEngine(r *core.Run, rule string) {
 		if o.Rule != rule {
 			continue
 		}
-		if pf, ok := pkgFilter[r.Prop]; ok && (rule == "R-SPELL" || rule == "R-TAGSTATE" || rule == "R-ERRMOVE") {
+		if pf, ok := pkgFilter[r.Prop]; ok && (rule == "R-SPELL" || rule == "R-TAGSTATE" || rule == "R-ERRMOVE" || rule == "R-RESTORE") {
 			keep := false
 			for _, p := range pf {
 				if strings.Contains(o.Key, p) {
@@ -175,7 +177,7 @@ func emitEngine(r *core.Run, rule string) {
 			r.Note("%s", nn)
 		}
 	}
-	floors := map[string]int{"R-CURSOR": 500, "R-PROGRESS": 60, "R-EOF": 5, "R-ERRMOVE": 20, "R-TILE": 60, "R-SPELL": 60, "R-TAGSTATE": 10, "R-ERRSTUCK": 12}
+	floors := map[string]int{"R-CURSOR": 500, "R-PROGRESS": 60, "R-EOF": 5, "R-ERRMOVE": 20, "R-TILE": 60, "R-SPELL": 60, "R-TAGSTATE": 10, "R-ERRSTUCK": 12, "R-INPLACE": 4, "R-RESTORE": 30}
 	if _, filtered := pkgFilter[r.Prop]; !filtered && r.Prop != "C15" {
 		r.Floor("engine obligations "+rule, n, floors[rule])
 	} else {
